@@ -42,6 +42,8 @@ fn main() {
       let report: Report = match prop.as_str() {
         "C14" => dgh::c14::run(&tier, seed),
         "C15" => dgh::walkprops::run_c15(&tier, seed),
+        "C06" => dgh::c06::run(&tier, seed),
+        "C20" => dgh::c20::run(&tier, seed),
         "C02" => dgh::walkprops::run_c02(&tier, seed),
         _ => {
           eprintln!("unknown property {}", prop);
